@@ -311,7 +311,19 @@ pub fn run(cfg: &Cfg) {
     if cfg.shard == 0 {
         chartab_line(&mut s);
     }
-    let pats = patterns(&cfg.space, &cfg.tier, cfg.seed);
+    // c20: the pattern-level reading of commit / restore — only the patterns of the conditional space that contain a
+    // committing construct (atomic group, condition, look-around), quick: a slice of them
+    let pats: Vec<String> = if cfg.space == "c20" {
+        let all: Vec<String> = patterns("c15", &cfg.tier, cfg.seed)
+            .into_iter()
+            .filter(|p| p.contains("(?>") || p.contains("(?(") || p.contains("(?!") || p.contains("(?=") || p.contains("+)") || p.contains("++"))
+            .collect();
+        let keep = if cfg.tier == "thorough" { all.len() } else { 3000 };
+        let step = (all.len() / keep).max(1);
+        all.into_iter().step_by(step).collect()
+    } else {
+        patterns(&cfg.space, &cfg.tier, cfg.seed)
+    };
     let txts = texts(&cfg.space, &cfg.tier);
     let limits: Vec<usize> = if cfg.space == "c07" {
         vec![0, 1, 2, 3, 5, 10, 100, 1_000_000, 1usize << 32, usize::MAX]
